@@ -33,9 +33,12 @@ UNDERSTOOD = [
     (r"Minimizer::merge_transitions$", "skip", "C03.f"),
     (r"Minimizer::calculate_initial_partition$", "filter", "C03.a: filter + map instead of filter_map (selection rows)"),
     (r"MultiPatternNfa::move_set$", "filter_map", "C02.d"),
-    (r"internal::nfa::Nfa::try_from_ast$", "skip", "C02.c: alternation/concat by split_first / first + rest (denotation compared with the alternatives seen)"),
-    (r"scanner_mode::ScannerMode::new$", "skip", "inside the sortedness debug_assert (zip with the list shifted by one)"),
-    (r"scanner_mode::ScannerMode::new$", "zip", "inside the sortedness debug_assert"),
+    (r"internal::nfa::Nfa::move_set$", "filter", "C02.d: targets already in the result are not added twice (same form as the multi-pattern move_set)"),
+    (r"internal::nfa::Nfa::move_set$", "filter_map", "C02.d"),
+    (r"CompiledDfa::try_from_patterns$", "filter_map", "C04.f analyses the selection element by element: a pattern is passed over only if it has no lookahead"),
+    (r"CompiledDfa::try_from_patterns$", "filter", "C04.f (as above)"),
+    (r"scanner_mode::ScannerMode::new$", "skip", "C06.h/C02.h: the two stored lists are checked by how they are filled (common.list_fill reports adaptors on them); other chains only feed the sortedness debug_assert"),
+    (r"scanner_mode::ScannerMode::new$", "zip", "C06.h/C02.h (as above)"),
 ]
 # functions whose results no property speaks about (text for logs / humans, NFA pictures used by unit tests only)
 IRRELEVANT = r"as std::fmt::(Display|Debug)>::fmt$|internal::dot::(nfa_render|multi_pattern_nfa_render|multi_render|render_to)\b|::trace_\w+$|ScannerImpl::log_compiled_automata_as_dot$|scanner_impl_rx::"
@@ -67,6 +70,8 @@ def analyze(ctx, rules):
                 tys = " ".join(t.get("callee_targs") or []) + " " + (t.get("callee_self") or "")
                 if re.search(r"ops::RangeFrom<usize>|iter::Repeat<|iter::RepeatN<", tys):
                     continue        # pairing with 0.. or with a repeated constant cannot drop an element of the other operand
+            if kind == "take" and re.search(r"^std::iter::(RepeatWith|Repeat|Successors|FromFn)<", t.get("callee_self") or ""):
+                continue            # the first n elements of an endless generator: n elements, nothing is dropped
             for o, _ in (owners(F, fn) or [(fn, None)]):
                 sites.setdefault((o.name, kind), []).append(fn.loc(bb))
     for rule in rules:
